@@ -89,8 +89,11 @@ def on_watchdog(ctx, w):
 def set_fs(rng):
     fs = float(rng.choice([4e10, 8e10, 1.6e11, 3.2e11, 6.4e11]))
     with core.quiet():
-        T.gv(sps=int(rng.choice([8, 16])), fs=fs)
-    return fs
+        if rng.integers(5) == 0:      # a sampling rate that is not an integer multiple of the slot rate: everything follows gv.fs, not sps*R
+            T.gv(R=fs / float(rng.choice([2.5, 3.3, 7.6])), fs=fs)
+        else:
+            T.gv(sps=int(rng.choice([8, 16])), fs=fs)
+    return float(T.gv.fs)
 
 
 def make_field(rng, n, n_pol, peak, kind, fs):
@@ -260,6 +263,40 @@ def w_layouts(ctx, rng, i):
     ctx.bin("layout.noise", noise)
 
 
+def w_zero_coefficients(ctx, rng, i):
+    """every subset of {alpha, beta_2, beta_3, gamma} set to exactly zero (16 combinations, down to the fully transparent fibre),
+    one and two polarisations: shape / energy postconditions, the SPM closed form where there is no dispersion, and the result is
+    a new object that shares nothing with the input."""
+    fs = set_fs(rng)
+    mask = i % 16
+    n_pol = 1 + (i // 16) % 2
+    n = int(rng.choice([64, 127, 256]))
+    peak = float(10 ** rng.uniform(-3, math.log10(0.5)))
+    x = make_field(rng, n, n_pol, peak, KINDS[int(rng.integers(4))], fs)
+    L = float(10 ** rng.uniform(-0.5, 1.5))
+    alpha = 0.0 if mask & 1 else float(rng.uniform(0.05, 0.5))
+    b2 = 0.0 if mask & 2 else float(rng.uniform(-25, 25))
+    b3 = 0.0 if mask & 4 else float(rng.uniform(-0.2, 0.2))
+    gamma = 0.0 if mask & 8 else float(rng.uniform(0.1, 1) * min(5.0, 10.0 / (peak * L)))
+    zero_as_int = bool(rng.integers(2))
+    args = [0 if (zero_as_int and v == 0) else v for v in (alpha, b2, b3, gamma)]
+    ctx.describe(n=n, n_pol=n_pol, L=L, alpha=args[0], beta_2=args[1], beta_3=args[2], gamma=args[3], zero_mask=mask)
+    d0 = core.digest(x.signal)
+    with core.quiet():
+        y = D.FIBER(x, L, args[0], args[1], args[2], args[3], 0.02)         # fiber.* decide
+    ctx.check("fresh.result", y is not x and isinstance(y, T.optical_signal) and not np.shares_memory(y.signal, x.signal), "FIBER returned its input object / a view of its input")
+    if b2 == 0 and b3 == 0 and isinstance(y, T.optical_signal) and y.signal.shape == x.signal.shape:
+        a = alpha * math.log(10) / 10
+        ok = False
+        for aa in (a, alpha / 4.343):
+            Leff = (1 - math.exp(-aa * L)) / aa if aa > 0 else L
+            ok = ok or relL2(y.signal, x.signal * math.exp(-aa * L / 2) * np.exp(1j * gamma * np.abs(x.signal) ** 2 * Leff)) <= 1e-9
+        ctx.check("spm.closed_form", ok, f"dispersionless FIBER != in*exp(-aL/2)*exp(j g |in|^2 L_eff) (alpha={alpha}, gamma={gamma})")
+    ctx.check("input_unchanged", core.digest(x.signal) == d0, "FIBER modified its input")
+    ctx.case(("zeros", mask, n_pol, zero_as_int), sample=dict(zero_mask=mask, n_pol=n_pol) if i < 2 else None)
+    ctx.bin("zero_mask", mask)
+
+
 def w_spm(ctx, rng, i):
     """no dispersion: out = in * exp(-a L/2) * exp(j g |in|^2 L_eff)."""
     fs = set_fs(rng)
@@ -402,6 +439,7 @@ WORKLOADS = [
     Workload("deep", w_deep, 8, 160, budget=300),
     Workload("two_grids", w_two_grids, 24, 600, budget=300),
     Workload("layouts", w_layouts, 360, 7200, budget=120),
+    Workload("zero_coefficients", w_zero_coefficients, 64, 1600, budget=120),
 ]
 
 
